@@ -1,6 +1,6 @@
 """C11 — Values cross the Python/JavaScript boundary faithfully (structural clauses)."""
 
-from ..rules import objmodel, recursion
+from ..rules import objmodel, pairing, recursion
 
 
 def run(ctx, rep):
@@ -10,4 +10,16 @@ def run(ctx, rep):
     objmodel.rule_native_results_normalised(ctx, rep, "C11-R4b")
     recursion.rule_data_recursion_guarded(ctx, rep, "C11-R5", only={"context:Context._to_python", "context:Context._to_js"}, floor=2)
     recursion.rule_cycle_guard_is_path_scoped(ctx, rep, "C11-R5b", {"context:Context._to_python", "context:Context._to_js"})
+    import ast as _ast
+
+    used = set()
+    for q in ("context:Context._to_python", "context:Context._to_js"):
+        g = next((f for f in ctx.tree.funcs if f.qual == q), None)
+        if g is not None:
+            for w in g.own_nodes():
+                if isinstance(w, _ast.With):
+                    for it in w.items:
+                        if isinstance(it.context_expr, _ast.Call) and isinstance(it.context_expr.func, _ast.Attribute):
+                            used.add(it.context_expr.func.attr)
+    pairing.rule_contextmanager_cleanup(ctx, rep, "C11-R6", where=lambda f: f.name in used, what=" used by the boundary converters")
     rep.undecided += ["get(set(v)) == v for all value shapes (round-trip equality is a runtime property)"]
